@@ -372,6 +372,55 @@ func c23R4(c *engine.Ctx, hm *ssa.Function) {
 			}
 		}
 	}
+	// every callback registered in the engine's table is reached that way; and
+	// NotifyError calls it with a nil buffer, so a callback may touch its
+	// buffer parameter only where the error parameter is nil (or the buffer
+	// was tested)
+	nilBuf := false
+	if ne := c.Func("rpc", "Engine.NotifyError"); ne != nil {
+		for _, call := range engine.Calls(ne) {
+			cc := call.Common()
+			if cc.StaticCallee() == nil && !cc.IsInvoke() && len(cc.Args) == 2 && engine.IsNil(cc.Args[0]) {
+				nilBuf = true
+			}
+		}
+	}
+	cbs := 0
+	for _, f := range allFunctions(c, c.SSA["rpc"]) {
+		for _, g := range engine.WithAnon(f) {
+			for _, mu := range mapUpdatesOf(g, "p:e.rpc") {
+				cb := closureOf(mu.Value)
+				if cb == nil {
+					c.Undecided("C23.R6", engine.FuncID(g)+"/callback#"+ordinal(g, mu), mu.Pos(), "the value registered as result callback is not a function literal")
+					continue
+				}
+				cbs++
+				walk(cb)
+				if !nilBuf || len(cb.Params) != 2 || cb.Params[0].Referrers() == nil {
+					continue
+				}
+				buf, perr := cb.Params[0], cb.Params[1]
+				var bad []string
+				for _, ref := range *buf.Referrers() {
+					if _, dbg := ref.(*ssa.DebugRef); dbg {
+						continue
+					}
+					if b, isCmp := ref.(*ssa.BinOp); isCmp && (b.Op == token.EQL || b.Op == token.NEQ) {
+						continue
+					}
+					ok := engine.GuardedBy(ref, func(k engine.Cmp) bool {
+						return (k.X == ssa.Value(perr) && engine.IsNil(k.Y) && k.Op == token.EQL) ||
+							(k.X == ssa.Value(buf) && engine.IsNil(k.Y) && k.Op == token.NEQ)
+					})
+					if !ok {
+						bad = append(bad, c.Position(ref.Pos()))
+					}
+				}
+				c.Check(len(bad) == 0, "C23.R6", engine.FuncID(cb)+"/nil-buffer-on-error", cb.Pos(), "NotifyError calls the callback with a nil buffer: the buffer is used without an err == nil (or b != nil) test at %s", strings.Join(bad, ", "))
+			}
+		}
+	}
+	c.Floor("C23.R6", 2, cbs)
 	bd := engine.NewBounds()
 	n := 0
 	for _, f := range order {
